@@ -138,6 +138,9 @@ func init() {
 				a.runtime.context = a.Get(1)
 			}
 			result = a.runtime.executeList(root)
+			if result.IsValid() && result.Type() == returnedNil.Type() {
+				result = reflect.Value{} // the last return executed was given nil
+			}
 
 			return result
 		})),
